@@ -128,7 +128,23 @@ impl Scenario for PromoScenario {
                 }
                 match &self.ops[*o as usize] {
                     POp::Api(op) => match leader.api(op).await {
-                        Ok(ok) => class = format!("{}:{}", op.kind(), if ok { "Ok" } else { "Err" }),
+                        Ok(ok) => {
+                            class = format!("{}:{}", op.kind(), if ok { "Ok" } else { "Err" });
+                            // a registration that is made (again) after the join is forwarded, and a
+                            // session end removes the client's registrations
+                            match op {
+                                // (the leader forwards registration *changes*: setting the same value
+                                // again changes nothing and is not forwarded)
+                                Op::Set(_, k, v) if ok && prejoin_regs.get(k) != Some(&serde_json::json!({ "p": v })) => {
+                                    prejoin_regs.remove(k);
+                                }
+                                Op::Disconnect(c) => {
+                                    let prefix = format!("$SYS/clients/{}/", cid(*c));
+                                    prejoin_regs.retain(|k, _| !k.starts_with(&prefix));
+                                }
+                                _ => {}
+                            }
+                        }
                         Err(e) => violation = Some(e),
                     },
                     POp::Join => {
